@@ -465,13 +465,26 @@ def _publish(repo, rep):
         keys = [src(g.args[0]) for g in gets if g.args] + \
             [src(t.slice) for t in sets]
         okk = bool(gets) and bool(sets) and npos == 1 and \
-            all(k == va for k in keys)
-        detail = "keys %s, %d named positional parameter(s)" % (keys, npos)
+            len(set(keys)) == 1
+        kw = inner[0].args.kwarg.arg if inner[0].args.kwarg else None
+        key_expr = None
+        for g_ in gets:
+            if g_.args:
+                key_expr = L.inline_locals(inner[0], g_.args[0])
+        kt = src(key_expr) if key_expr is not None else ""
+        covers_pos = va in [n.id for n in ast.walk(key_expr)
+                            if isinstance(n, ast.Name)] if key_expr is not \
+            None else False
+        covers_kw = kw is None or (key_expr is not None and kw in [
+            n.id for n in ast.walk(key_expr) if isinstance(n, ast.Name)])
+        okk = okk and covers_pos and covers_kw
+        detail = "key %s; vararg %s, kwarg %s" % (kt[:80], va, kw)
     rep.check(okk, "R14.4", c.qualname, "the loader registry is keyed by "
-              "the complete positional argument tuple (file and format): a "
-              "shared loader never hands out a template built for other "
-              "arguments", construct="registry-key", where=L.where(c),
-              detail=detail)
+              "everything the load is called with -- the positional "
+              "arguments and the keyword arguments (bind() passes the "
+              "template class by keyword): a shared loader never hands out "
+              "a template built for other arguments",
+              construct="registry-key", where=L.where(c), detail=detail)
     # constructors do not mutate argument objects of the caller
     from .c16 import fresh_search_path
     okf, detail = fresh_search_path(repo)
